@@ -1,5 +1,5 @@
 """C15 — corrupted files are detected, never served as data."""
-from gen import lib, corrupt
+from gen import lib, corrupt, crash, recover
 
 PROP_FILE = "props/C15.v"
 RULE = ("corrupt: histories with flushes, compactions and reopens are run to quiescence and closed; "
@@ -10,9 +10,13 @@ RULE = ("corrupt: histories with flushes, compactions and reopens are run to qui
         "corruption every value returned must be the correct latest one; for WAL corruption every value "
         "returned must have been written for that key at some time (damaged records are skipped); "
         "panics are violations. Non-trivial: a mutation that changes the outcome (error or different "
-        "data); distinct by (history, file, offset, kind).")
+        "data); distinct by (history, file, offset, kind). recoverc: every single-byte mutation of CURRENT, "
+        "every manifest and every write-ahead log of small databases is also recovered by the extracted "
+        "byte-exact recovery function Recover.recover_image and compared with the real DB::open: same "
+        "success/failure, same last sequence number, same contents (the model reproduces skipped "
+        "records, mis-framing after a checksum failure, rejected manifests).")
 TRUSTED = ["SimFs images; the oracle knows every value ever written per key from the history"]
-ASSUMPTIONS = ["single-byte corruption; CRC-32C detects it when the byte is covered by a checksum (assumption of the theorems, not proved from the polynomial)"]
+ASSUMPTIONS = ["single-byte corruption (CRC-32C's detection of any single changed byte is proved: C15a_crc32c_detects_single_byte)"]
 
 
 def corpus():
@@ -25,12 +29,32 @@ def corpus():
     return res
 
 
+def gen_recoverc(tier, rng):
+    n = 6 if tier == "quick" else 200
+    cases = []
+    for i in range(n):
+        toks = crash.gen_history(rng, "k%d" % i, rng.choice([4, 8, 15]))
+        cases.append("%s # %d" % (" ".join(toks), 200 if tier == "quick" else 600))
+    return cases
+
+
 def suites(tier, seed, rng):
-    return [corrupt.CorruptSuite(corpus() + corrupt.gen_cases(tier, rng))]
+    return [corrupt.CorruptSuite(corpus() + corrupt.gen_cases(tier, rng)),
+            recover.RecoverSuite(gen_recoverc(tier, rng), "recoverc")]
 
 
 def replay_suites(rp):
+    if rp.get("suite") == "recover":
+        return [recover.RecoverSuite([rp["case"]], "recoverc")]
     return [corrupt.CorruptSuite([rp["case"]])]
+
+
+def still_fails(suite, case, workdir):
+    if suite == "recover":
+        s = recover.RecoverSuite([case], "recoverc")
+        corr, prop = s.execute(workdir, tag="sh")
+        return any("image" in x.get("detail", "") for x in corr)
+    return False
 
 
 def nontrivial(suite, case):
@@ -38,4 +62,4 @@ def nontrivial(suite, case):
 
 
 def classify(suite, case):
-    return "corrupt"
+    return "recoverc" if suite == "recover" else "corrupt"
